@@ -13,6 +13,77 @@ def _once(tier, seed, wd):
     return common.run_vh_shards("c14", 1, args, wd, 120 if tier == "quick" else 240, seed)
 
 
+def late_member_part(out, wd, seed):
+    """real processes: the naming layer learns the membership from the raft index actor. A member that joins long after the others
+    started (the start-up re-announcements at 0/10/30/60 s are over) must still appear in every node's naming view, and writes
+    routed by one node must be visible on the other"""
+    import os
+    import time
+    import procrig
+    common.build(need_bin=True)
+    info = {}
+    n1 = procrig.Node(os.path.join(wd, "late"), 1, auto_init=True, name="late1")
+    n2 = procrig.Node(os.path.join(wd, "late"), 2, join=n1.grpc_addr, auto_init=False, name="late2")
+    try:
+        n1.start()
+        t0 = time.time()
+        time.sleep(64.0)
+        n2.start()
+        t_join = time.time()
+        while time.time() - t_join < 30:
+            m = n2.metrics()
+            if m and len((m.get("membership_config") or {}).get("members") or []) == 2 and m.get("current_leader"):
+                break
+            time.sleep(0.3)
+        else:
+            raise common.Inconclusive("late member did not join the raft membership within 30 s")
+        info["joined_after_s"] = round(t_join - t0, 1)
+
+        def view(nd):
+            tok, _ = nd.console_login("admin", "admin", wait=15)
+            r = nd.console("GET", "/rnacos/api/console/cluster/cluster_node_list", tok, timeout=5)
+            j = r.json()
+            items = j if isinstance(j, list) else ((j or {}).get("data") or [])
+            return sorted({it.get("node_id", it.get("nodeId")) for it in items if isinstance(it, dict)})
+        deadline = time.time() + 12
+        while True:
+            v1, v2 = view(n1), view(n2)
+            if (v1 == [1, 2] and v2 == [1, 2]) or time.time() > deadline:
+                break
+            time.sleep(1.0)
+        info["naming_view_node1"], info["naming_view_node2"] = v1, v2
+        out.evaluations += 2
+        # writes through the old node for services spread over both owners, read on the new node (and the reverse)
+        seen = {1: 0, 2: 0}
+        N = 8
+        for i in range(N):
+            n1.post("/nacos/v1/ns/instance", form={"serviceName": "c14late-%d-%d" % (seed, i), "ip": "10.14.1.%d" % i, "port": "80", "ephemeral": "true"}, timeout=5)
+            n2.post("/nacos/v1/ns/instance", form={"serviceName": "c14late-%d-%d" % (seed, i), "ip": "10.14.2.%d" % i, "port": "80", "ephemeral": "true"}, timeout=5)
+        time.sleep(3.0)
+        for i in range(N):
+            r2 = n2.get("/nacos/v1/ns/instance/list", params={"serviceName": "c14late-%d-%d" % (seed, i)}, timeout=5).text()
+            r1 = n1.get("/nacos/v1/ns/instance/list", params={"serviceName": "c14late-%d-%d" % (seed, i)}, timeout=5).text()
+            seen[2] += 1 if "10.14.1.%d" % i in r2 else 0
+            seen[1] += 1 if "10.14.2.%d" % i in r1 else 0
+            out.evaluations += 2
+        info["written_at_node1_seen_at_node2"], info["written_at_node2_seen_at_node1"] = seen[2], seen[1]
+        if v1 != [1, 2] or v2 != [1, 2]:
+            out.violation("real-cluster/naming-view-lacks-a-raft-member/joined-after-start-up-announcements",
+                          {"raft_members": [1, 2], "naming_view_node1": v1, "naming_view_node2": v2, "member_2_started_s_after_member_1": info["joined_after_s"], "instances": info})
+        elif seen[1] < N or seen[2] < N:
+            out.violation("real-cluster/write-not-visible-on-the-other-node/joined-after-start-up-announcements", dict(info))
+        else:
+            out.shape("real-cluster/member-joined-after-64s/views-agree")
+    except common.Inconclusive as e:
+        info["inconclusive"] = str(e)[:300]
+    except OSError as e:
+        info["inconclusive"] = repr(e)[:300]
+    finally:
+        n1.kill()
+        n2.kill()
+    out.extra["late_member"] = info
+
+
 def run(tier, seed):
     common.build()
     wd = common.workdir("c14")
@@ -56,6 +127,8 @@ def run(tier, seed):
                            "history ranges returned by QueryOwnerRange are ignored (first element = current range)"]
         if m.get("inconclusive") and not m["violations"]:
             raise common.Inconclusive("; ".join(m["inconclusive"][:3]))
+        if tier == "thorough":
+            late_member_part(out, wd, seed)
         return out.finish()
     finally:
         shutil.rmtree(wd, ignore_errors=True)
